@@ -806,13 +806,15 @@ def contract_methods(case):
             return ("fail", f"method/{cls}/{n}#{i if i is not None else 'p'}/{viewkind}",
                     f"{case}: on the result of the history (rows {st['rows']}) -> {str(a)[:300]}; "
                     f"on a new {cls} built from those rows -> {str(b)[:300]}")
-        answers[cls] = (run(x, True), st)
+        answers[cls] = (run(x, True), st, run(y, True))
     if not answers:
         return ("skip",)
     if len(answers) == 2 and n in CROSS and (n, i) not in CROSS_SKIP_VARIANT:
-        (a, sa), (b, sb) = answers["Alignment"], answers["ArrayAlignment"]
+        (a, sa, ya), (b, sb, yb) = answers["Alignment"], answers["ArrayAlignment"]
         if sa["rows"] == sb["rows"] and a != b:
-            return ("fail", f"cross/{n}#{i if i is not None else 'p'}/{viewkind}",
+            # the classes also differ on new objects built from the rows: the history is irrelevant for the key
+            where = "" if ya != yb else f"/{viewkind}"
+            return ("fail", f"cross/{n}#{i if i is not None else 'p'}{where}",
                     f"{case}: rows {sa['rows']}: Alignment -> {str(a)[:300]}; ArrayAlignment -> {str(b)[:300]}")
     return ("ok", any(a[0][0] == "ret" for a in answers.values()))
 
